@@ -561,15 +561,33 @@ def run(ctx):
                            "come back as their defaults", f3.loc(n))
     # ---- R6 every statistic passes through the dtype-aware converter, and what is converted is what is used
     for f3, label in ((ser_cs, "writer"), (des_cs, "reader")):
-        conv = f3.nested.get("handle_stat_dtype")
-        if conv is None:
-            raise AnalysisError(f"{f3.short}: handle_stat_dtype missing")
-        # locals filled from the converter
+        # the dtype-aware converter: the function (nested in f3 or at module level) called from f3 whose body decides
+        # on is_datetime / is_timedelta of the dtype - found by what it does, not by its name
+        conv_names = set()
+        for c in calls_in(f3.node, nested=True):
+            if isinstance(c.func, ast.Name):
+                g = f3.nested.get(c.func.id) or f3.module.functions.get(c.func.id)
+                if g is not None and any((isinstance(x, ast.Attribute) and x.attr in ("DateTime", "Timedelta", "is_datetime", "is_timedelta"))
+                                         or (isinstance(x, ast.Name) and x.id in ("is_datetime", "is_timedelta")) for x in ast.walk(g.node)):
+                    conv_names.add(c.func.id)
+        def _kind_decision(e):
+            return any((isinstance(x, ast.Attribute) and x.attr in ("DateTime", "Timedelta", "is_datetime", "is_timedelta"))
+                       or (isinstance(x, ast.Name) and x.id in ("is_datetime", "is_timedelta")) for x in ast.walk(e))
+        if not conv_names and not _kind_decision(f3.node):
+            raise AnalysisError(f"{f3.short}: dtype-aware statistic converter not found")
+        # a converted value: a call of the converter, or (after the normaliser expanded an expression-like converter at its
+        # call site) an expression that decides on the dtype kind
+        is_conv = lambda c: (isinstance(c, ast.Call) and isinstance(c.func, ast.Name) and c.func.id in conv_names) or \
+            (isinstance(c, ast.AST) and not isinstance(c, ast.Name) and _kind_decision(c))
+        # locals filled from the converter (item stores in a loop, or a comprehension)
         filled = {}
         for s2 in function_stmts(f3):
             if isinstance(s2, ast.Assign) and isinstance(s2.targets[0], ast.Subscript) and isinstance(s2.targets[0].value, ast.Name) \
-                    and any(callee_last(c) == "handle_stat_dtype" for c in calls_in(s2)):
+                    and (any(is_conv(c) for c in calls_in(s2)) or is_conv(s2.value)):
                 filled[s2.targets[0].value.id] = s2
+            elif isinstance(s2, ast.Assign) and isinstance(s2.targets[0], ast.Name) and isinstance(s2.value, (ast.DictComp, ast.ListComp)) \
+                    and (any(is_conv(c) for c in calls_in(s2)) or is_conv(s2.value)):
+                filled[s2.targets[0].id] = s2
         for name, st2 in filled.items():
             reads = [n for n in walk_no_nested(f3.node) if isinstance(n, ast.Name) and n.id == name and isinstance(n.ctx, ast.Load)
                      and not (isinstance(parent(n), ast.Subscript) and isinstance(parent(n).ctx, ast.Store))]
@@ -587,13 +605,13 @@ def run(ctx):
             srcs = [a.value if isinstance(a, ast.keyword) else a for a in list(c.args) + [k for k in c.keywords]]
             ok_all = True
             for a in srcs:
-                if isinstance(a, ast.Call) and callee_last(a) == "handle_stat_dtype":
+                if is_conv(a):
                     continue
                 if isinstance(a, ast.Name) and a.id in filled:
                     continue
                 ok_all = False
             ctx.ob("R6", f3, f"{label}: `{txt(c)[:50]}` receives converted statistics", ok_all,
-                   "arguments come from handle_stat_dtype" if ok_all else
+                   "arguments come from the dtype-aware converter" if ok_all else
                    "the check is rebuilt from statistics that did not pass the dtype-aware converter", f3.loc(c))
     ctx.assume("attribute sets A_col/A_idx/A_schema are those named in the property statement; every member is "
                "verified to be a constructor parameter on each run")
